@@ -812,7 +812,7 @@ def explore_inits(spec):
                     devs = sum(1 for (_n, kk, c) in log[:j] if c != tuple(range(kk)))
                     if devs + 1 > spec["bound"]:
                         continue
-                    menu, cap = subsets_menu(n, k)
+                    menu, cap = subsets_menu(n, k, spec.get("subset_cap", 64))
                     capped = capped or cap
                     prefix = tuple(c for (_n, _k, c) in log[:j])
                     for alt in menu:
@@ -928,3 +928,31 @@ def replay_case(ctx, case, monitors, conform=True, judge_error=None):
     for (msg, sig) in msgs:
         ctx.violation(case, msg, sig)
     return rec
+
+
+def e2_plans(ctx, menu, monitors, entry="fit", conform=True, inits="all"):
+    """menu: list of (driver, limits, bound)"""
+    out = []
+    for (name, limits, bound) in menu:
+        d = get_driver(name, ctx.seed)
+        ii = all_labellings(d.Tp, d.K) if inits == "all" else inits(d)
+        out.append(dict(driver=name, seed=ctx.seed, inits=ii, limits=limits, bound=bound, entry=entry,
+                        monitors=monitors, conform=conform, subset_cap=64 if ctx.thorough else 10))
+    return out
+
+
+def e2_describe(ctx, ps, extra_rule=""):
+    ctx.cov["drivers"] = [get_driver(p["driver"], ctx.seed).describe() | {
+        "limits": p["limits"], "donor_deviation_bound": p["bound"], "initial_labellings": len(p["inits"]),
+        "entry": p["entry"]} for p in ps]
+    ctx.cov["exhaustive"] = True
+    ctx.cov["rule"] = (
+        "evaluations = complete real runs under scripted seams (every listed initial labelling x limit x "
+        "donor script with at most `donor_deviation_bound` non-default draws; all C(n,m) subsets per draw "
+        "when <= 64 (quick: <= 10), else first/last/alternating); states = distinct (labelling, donor spreads) "
+        "reached; transitions = applications of the fresh-state transition function; traces_validated = runs "
+        "whose every round matched the fresh-state model bitwise; distinct_nontrivial = completed runs with "
+        ">= 2 rounds. " + extra_rule)
+    ctx.assumptions += [
+        "the initial labelling, the donor draw and the pool are the only environment answers (checked: "
+        "both global RNG states bit-identical before/after every scripted run)"]
